@@ -39,6 +39,7 @@ fn main() {
         Some("gensweep") => gensweep_cmd(&args),
         Some("stall") => stall_cmd(&args),
         Some("busy") => busy_cmd(&args),
+        Some("halfwipe") => halfwipe_cmd(&args),
         Some("wrap") => wrap_cmd(&args),
         Some("extwipe") => extwipe_cmd(&args),
         _ => {
@@ -917,6 +918,93 @@ fn busy_cmd(_args: &[String]) -> Value {
     drop(rd);
     cleanup(&path);
     json!({"cases": cases, "violations": violations, "wall_s": t0.elapsed().as_secs_f64()})
+}
+
+// ------------------------------------------------------------------------------------------ halfwipe (C04 c/d)
+/// The daemon dies while (re-)initialising an UNUSABLE leftover file - after every number of steps of
+/// ShmWriter::new - and is restarted. The transition cover cannot drive this from every leftover file (after the
+/// truncation all of them are the same model state), so it is enumerated here: leftover files that are unusable
+/// for one field only and otherwise look like a segment carrying a record nobody published. Whatever the point of
+/// death: no client may ever obtain that record, and after the restart and one publication new clients attach and
+/// read exactly what was published.
+fn halfwipe_cmd(_args: &[String]) -> Value {
+    let w = 2usize;
+    let bounds = chunk_bounds(w);
+    let readers = vec!["r1".to_string(), "r2".to_string()];
+    let mut cases = 0usize;
+    let mut violations = vec![];
+    let mut errors = vec![];
+    let t0 = std::time::Instant::now();
+    let leftovers = [
+        ("bad magic, plausible version/generation, foreign record", serde_json::json!({"ex": true, "len": 72, "mok": false, "size": 72, "ver": 1, "gen": 4, "w": [9, 9]})),
+        ("declared size too small, foreign record", serde_json::json!({"ex": true, "len": 72, "mok": true, "size": 40, "ver": 1, "gen": 6, "w": [9, 9]})),
+        ("bad magic, odd generation, half a foreign record", serde_json::json!({"ex": true, "len": 72, "mok": false, "size": 72, "ver": 2, "gen": 7, "w": [9, 8]})),
+    ];
+    for (lname, init) in leftovers.iter() {
+        for die_after in 0..=14usize {
+            let path = scratch_path(&format!("halfwipe_{die_after}"));
+            make_start_file(&path, init, &bounds);
+            let mut ctl = Ctl::new(&path, w, &readers, 1, 1);
+            let mut died_at = String::new();
+            let r = (|| -> Result<(), String> {
+                let mut run_all = |ctl: &mut Ctl, who: &str| -> Result<(), String> {
+                    let mut g = 0;
+                    while ctl.pending_of(who).is_some() && g < 64 {
+                        g += 1;
+                        ctl.release(who, Directive::Proceed)?;
+                    }
+                    Ok(())
+                };
+                ctl.start("W", Cmd::WNew)?;
+                let mut g = 0;
+                while ctl.pending_of("W").is_some() && g < die_after {
+                    g += 1;
+                    ctl.release("W", Directive::Proceed)?;
+                }
+                if let Some(p) = ctl.pending_of("W") {
+                    died_at = p.clone();
+                    ctl.release("W", Directive::Crash)?;
+                } else {
+                    died_at = "(start-up completed)".into();
+                }
+                // a client that comes along while the daemon is down
+                ctl.start("r1", Cmd::ROpen)?;
+                if ctl.procs["r1"].attached {
+                    ctl.start("r1", Cmd::RCall)?;
+                    run_all(&mut ctl, "r1")?;
+                }
+                // restart, one publication, a new client
+                if !ctl.procs["W"].alive {
+                    ctl.start("W", Cmd::WNew)?;
+                    run_all(&mut ctl, "W")?;
+                }
+                if ctl.procs["r1"].attached {
+                    ctl.start("r1", Cmd::RCall)?;
+                    run_all(&mut ctl, "r1")?;
+                }
+                ctl.start("W", Cmd::WWrite(1))?;
+                run_all(&mut ctl, "W")?;
+                ctl.start("r2", Cmd::ROpen)?;
+                if ctl.procs["r2"].attached {
+                    ctl.start("r2", Cmd::RCall)?;
+                    run_all(&mut ctl, "r2")?;
+                }
+                Ok(())
+            })();
+            cases += 1;
+            if let Err(e) = r {
+                if !ctl.poisoned {
+                    errors.push(json!({"case": [lname, die_after], "error": e}));
+                }
+            }
+            if !ctl.oracle.violations.is_empty() && violations.len() < 12 {
+                violations.push(json!({"case": {"leftover": lname, "daemon_died_after_steps_of_new": die_after, "at": died_at}, "violations": viol_json(&ctl.oracle.violations)}));
+            }
+            ctl.shutdown();
+            cleanup(&path);
+        }
+    }
+    json!({"cases": cases, "violations": violations, "errors": errors, "wall_s": t0.elapsed().as_secs_f64()})
 }
 
 // ------------------------------------------------------------------------------------------ wrap (C03 exception, C02 finding)
